@@ -1,31 +1,71 @@
 """Per-property claim texts for MANIFEST.json."""
-HOOK_COMMITS = ["d339998", "f4e7f62", "f7fc266", "d9647b3"]
+import subprocess
 
-TRUST = ("Trusted: the harness adapters (1:1 forwarding), the stamp counter, the checkers in "
-         "harness/vh_channels/src/oracle.rs. Decides only the executions produced; x86-TSO schedules natively.")
+def _hook_commits():
+    out = subprocess.run(["git", "-C", "/repo", "log", "--format=%h %s"], capture_output=True, text=True).stdout
+    return [l.split()[0] for l in out.splitlines() if l.split(" ", 1)[1].startswith("verif hook")][::-1]
+
+HOOK_COMMITS = _hook_commits()
+
+TRUST_CH = ("Trusted: the harness adapters (1:1 forwarding to the library), the global stamp counter, the checkers in "
+            "harness/vh_channels/src/oracle.rs. Decides only the executions produced in this run; native runs see x86-TSO schedules.")
+TRUST_SEQ = ("Trusted: the reference model inside the engine (encodes the property statement), the generator. Decides only the "
+             "generated cases of this run.")
+
+def ch(text, technique, ref, engine="chan_stress", note=TRUST_CH):
+    return {"engine": engine, "text": text, "design_ref": ref, "note": note, "technique": technique}
 
 CLAIMS = {
-    "C02": {
-        "engine": "chan_stress",
-        "text": "Held on every execution observed: thousands of generated multi-threaded scenarios per run over all 8 "
-                "queue flavours (ring wrap, chunk/slab recycling sizes, batch and single forms, async and sync), "
-                "schedule-perturbed at the library's atomic steps; per consumer handle the values of each producer "
-                "handle must arrive in strictly increasing send sequence.",
-        "design_ref": "DESIGN.md §2 C02",
-        "note": TRUST,
-        "technique": "runtime monitoring: recorded client-boundary history + per-producer order checker under chaos scheduling",
-    },
-    "C05": {
-        "engine": "chan_stress",
-        "text": "Bounded-progress restatement: closed scenarios of blocking operations must terminate; a violation needs "
-                "three quiet windows with a healthy scheduler canary, every unfinished thread inside a blocking call, and "
-                "an operation shown possible by the history or released by a legal spurious wake.",
-        "design_ref": "DESIGN.md §1.7, §2 C05",
-        "note": TRUST + " Liveness is decided as bounded progress at quiescence, never by a wall-clock deadline alone.",
-        "technique": "runtime monitoring: stuck oracle (quiescence + history enabledness + spurious-wake nudge) under chaos scheduling",
-    },
+    "C01": ch("Held on every execution observed (apart from listed known findings): generated closed multi-threaded scenarios over all "
+              "nine point-to-point flavours and every send/recv form (single, batch, in-place, timed, async with cancellation, "
+              "conversions), perturbed at the library's atomic steps; multiset conservation (no phantom, no duplicate, no loss after "
+              "a drain to Disconnected, failed operations hand back exactly input[sent..]) plus the deterministic async stepper.",
+              "runtime monitoring: recorded client-boundary histories + conservation/hand-back checker under chaos scheduling; deterministic poll/drop stepper",
+              "DESIGN.md §2 C01", engine="chan_stress+chan_stepper"),
+    "C02": ch("Held on every execution observed: per consumer handle the values of each producer handle arrive in strictly increasing "
+              "send sequence, over all 8 queue flavours with ring wrap / chunk and slab recycling sizes, batch and single forms.",
+              "runtime monitoring: recorded history + per-producer order checker under chaos scheduling", "DESIGN.md §2 C02"),
+    "C03": ch("Held on every execution observed: interval-sound capacity inequality (completed sends minus receives already invoked "
+              "never exceeds capacity; rendezvous: 0), len()<=capacity() probes, oneshot single success.",
+              "runtime monitoring: recorded history + capacity inequality over call/return stamps", "DESIGN.md §2 C03"),
+    "C04": ch("Held on every execution observed: life-cycle scenarios (clone/close/drop/convert racing operations, receivers leaving "
+              "early) checked against interval-sound disconnect rules D2-D9 (no value after Disconnected, no premature "
+              "Disconnected/Closed, sends after the last receiver fail, closed handles reject, close idempotent, no Empty on a "
+              "provably drained+disconnected channel).",
+              "runtime monitoring: recorded history + disconnect-protocol rules over handle life cycles", "DESIGN.md §2 C04"),
+    "C05": ch("Bounded-progress restatement: closed scenarios of blocking operations must terminate; a violation needs three quiet "
+              "windows with a healthy scheduler canary, every unfinished thread inside a blocking call, and an operation shown "
+              "possible by the history or released by a legal spurious wake.",
+              "runtime monitoring: stuck oracle (quiescence + history enabledness + spurious-wake nudge) under chaos scheduling",
+              "DESIGN.md §1.7, §2 C05",
+              note=TRUST_CH + " Liveness is decided as bounded progress at quiescence, never by a wall-clock deadline alone."),
+    "C06": ch("Held on every program/execution observed (apart from listed known findings): deterministic programs that create, "
+              "poll, re-poll with a different waker and drop futures of every async API; at quiescence every pending future is "
+              "polled spontaneously - Ready proves a lost wake; conservation after the final drain proves cancel safety; plus "
+              "threaded async/cancel scenarios under the stuck oracle.",
+              "runtime monitoring: deterministic stepper with spontaneous re-poll oracle + threaded chaos runs with stuck oracle",
+              "DESIGN.md §1.6, §2 C06", engine="chan_stepper+chan_stress"),
+    "C09": ch("Held on every execution observed: every payload (clones included) owns a ledger slot bumped by its Drop; after all "
+              "handles and futures are gone each constructed payload was dropped exactly once, for threaded teardown orders and "
+              "for the stepper's cancel/drop programs; payloads also own a heap cell so a double drop is a memory error.",
+              "runtime monitoring: drop ledger on instrumented payloads over chaos teardown scenarios + stepper",
+              "DESIGN.md §2 C09", engine="chan_stress+chan_stepper"),
+    "C18": ch("Held on every case observed (apart from the listed cross-thread cycle hang): registration/resolution histories over "
+              "typed, named and trait-object keys on instance, global and local containers against a map model; barrier-started "
+              "singleton races (factory count, ptr_eq); dependency DAGs; cycles in child processes (panic required).",
+              "runtime monitoring: reference-model differential + concurrent race monitors + child-process cycle probes",
+              "DESIGN.md §2 C18", engine="ioc_check", note=TRUST_SEQ),
+    "C19": ch("Held on every case observed: generated logger trees / appender wirings / event scripts run in child processes; the "
+              "parent computes the expected per-appender delivery from the statement's routing rule and checks exactly-once, "
+              "log==tracing, per-thread order, no loss of events returned before shutdown, streams drain then disconnect.",
+              "runtime monitoring: child-process executions checked against a routing reference model",
+              "DESIGN.md §2 C19", engine="log_check", note=TRUST_SEQ),
+    "C20": ch("Held on every case observed: JSON-lines records re-parsed (independent parser + serde_json) and round-tripped for "
+              "arbitrary Unicode/control/non-finite input, pattern encoder total with verbatim message, rolling writer audited "
+              "after every write/clock step/restart (contiguous records, no tear/dup/reorder, retention, no clobbering).",
+              "runtime monitoring: generated inputs against round-trip and directory-audit oracles with an injected clock",
+              "DESIGN.md §2 C20", engine="enc_roller", note=TRUST_SEQ),
 }
 
 NOT_APPLICABLE = {p: "monitor under construction in this round (see DESIGN.md build order); not claimed yet"
-                  for p in ["C01", "C03", "C04", "C06", "C07", "C08", "C09", "C10", "C11", "C12", "C13", "C14",
-                            "C15", "C16", "C17", "C18", "C19", "C20"]}
+                  for p in ["C07", "C08", "C10", "C11", "C12", "C13", "C14", "C15", "C16", "C17"]}
